@@ -876,27 +876,33 @@ def lit_shapes(tier):
     q = tier == 'quick'
     def shape(name, setup, filt, nmax, what, integer=True, tail=False):
         return dict(name=name, setup=setup, filt=filt, nmax=nmax, what=what, integer=integer, tail=tail)
-    dd, hd, od, bd = (11, 9, 12, 33) if q else (20, 16, 22, 64)
-    na, nf = (8, 10) if q else (11, 14)
+    # digits: decimal, hexadecimal, octal (after the leading 0), binary; characters: any text, floating literal.
+    # quick: every boundary between int, unsigned, long (2^31, 2^32) is crossed in base 10, 16 and 8;
+    # thorough: every boundary up to 2^64 in every base
+    dd, hd, od, bd, na, nf = (10, 9, 11, 12, 8, 9) if q else (20, 16, 22, 64, 11, 14)
+    if os.environ.get('C14_LIT_BOUNDS'):          # development aid
+        dd, hd, od, bd, na, nf = [int(x) for x in os.environ['C14_LIT_BOUNDS'].split(',')]
     INT = 'c14_spec.kind == C14_LIT_INT && c14_spec.base == %d'
-    return [
+    shapes = [
         shape('any-text', '', '1', na, 'every text of at most %d characters over all 256 byte values that is a literal' % na,
               integer=False, tail=True),
         shape('decimal', '', INT % 10, dd + 3,
               'every decimal integer literal of at most %d digits with every integer-suffix' % dd),
-        shape('hexadecimal-x', "c14_text[0] = '0'; c14_text[1] = 'x';", INT % 16, 2 + hd + 3,
-              'every hexadecimal integer literal 0x... of at most %d digits with every integer-suffix' % hd),
-        shape('hexadecimal-X', "c14_text[0] = '0'; c14_text[1] = 'X';", INT % 16, 2 + hd + 3,
-              'every hexadecimal integer literal 0X... of at most %d digits with every integer-suffix' % hd),
         shape('octal', "c14_text[0] = '0';", INT % 8, 1 + od + 3,
               'every octal integer literal of at most %d digits after the leading 0 with every integer-suffix' % od),
-        shape('binary-b', "c14_text[0] = '0'; c14_text[1] = 'b';", INT % 2, 2 + bd + 3,
-              'every binary integer literal 0b... of at most %d digits with every integer-suffix' % bd),
-        shape('binary-B', "c14_text[0] = '0'; c14_text[1] = 'B';", INT % 2, 2 + bd + 3,
-              'every binary integer literal 0B... of at most %d digits with every integer-suffix' % bd),
-        shape('floating', '', 'c14_spec.kind == C14_LIT_FLOAT', nf,
-              'every decimal floating literal (double, or float by f/F suffix) of at most %d characters' % nf, integer=False),
     ]
+    # the prefix letter is concrete (symbolic execution then folds the dispatch on it); the capital forms: thorough
+    # tier (quick: inside literal/any-text up to its length)
+    for x in ('x',) if q else ('x', 'X'):
+        shapes.append(shape('hexadecimal-' + x, "c14_text[0] = '0'; c14_text[1] = '%s';" % x, INT % 16, 2 + hd + 3,
+                            'every hexadecimal integer literal 0%s... of at most %d digits with every integer-suffix' % (x, hd)))
+    for b in ('b',) if q else ('b', 'B'):
+        shapes.append(shape('binary-' + b, "c14_text[0] = '0'; c14_text[1] = '%s';" % b, INT % 2, 2 + bd + 3,
+                            'every binary integer literal 0%s... of at most %d digits with every integer-suffix' % (b, bd)))
+    shapes.append(shape('floating', '', 'c14_spec.kind == C14_LIT_FLOAT', nf,
+                        'every decimal floating literal (double, or float by f/F suffix) of at most %d characters' % nf,
+                        integer=False))
+    return shapes
 
 
 def literal_groups(ctx, unit):
@@ -928,7 +934,7 @@ def literal_groups(ctx, unit):
             defines.append('C14_LIT_TAIL')
         g = Group(
             name='literal/' + sh['name'], sources={'literal.c': body}, entry='h_literal', lang='c', defines=defines,
-            unwind=n + 6, checks=ARITH_CHECKS + (PTR_CHECKS if sh['tail'] else []), min_obligations=8,
+            unwind=n + 3, checks=ARITH_CHECKS + (PTR_CHECKS if sh['tail'] else []), min_obligations=8,
             timeout=int(os.environ.get('C14_TIMEOUT', '900')),
             functions=e3 + e2 + e1 + unit.common_ex, canary='CANARY', canary_label='canary',
             strength='bounded',
@@ -950,7 +956,7 @@ def literal_groups(ctx, unit):
     g = Group(
         name='literal/exponent-contract', sources={'literal.c': body}, entry='h_exponent', lang='c',
         defines=['C14_LIT_MAX=%d' % (emax + 2), 'C14_EXP_MAX=%d' % emax, 'C14_SHAPE_SETUP=', 'C14_SHAPE_FILTER=1', 'C14_LIT_NO_EXPONENT'],
-        unwind=emax + 8, checks=ARITH_CHECKS + PTR_CHECKS, min_obligations=4, timeout=common.timeout,
+        unwind=emax + 5, checks=ARITH_CHECKS + PTR_CHECKS, min_obligations=4, timeout=common.timeout,
         functions=e3 + e2 + e1 + unit.common_ex, canary='CANARY', canary_label='canary', strength='bounded',
         bound='every exponent text `sign? digits (f|F)?` of at most %d characters, followed by any character that ends '
               'the token, and the end of the buffer' % emax,
